@@ -34,6 +34,9 @@ def vec(*xs):
     return {"v": list(xs)}
 
 
+WILD = {"wild": True}
+
+
 def anyof(*xs):
     """Matches any of the given encodings (used where the property leaves the outcome open)."""
     return {"any": list(xs)}
@@ -41,6 +44,8 @@ def anyof(*xs):
 
 def match(e, a):
     """Expected-vs-actual comparison with {"any": [...]} wildcards on the expected side."""
+    if isinstance(e, dict) and "wild" in e:
+        return True
     if isinstance(e, dict) and "any" in e:
         return any(match(x, a) for x in e["any"])
     if isinstance(e, list):
